@@ -257,6 +257,46 @@ pub fn families(tier: Tier) -> Vec<(&'static str, Vec<Case>)> {
         }
         fams.push(("F3-program-char-edits", v));
     }
+    // F5: valid -> valid edits on multi-declaration programs: every single token replaced by
+    // another token of its class (identifier, literal, operator), every statement-level `;`
+    // doubled (an empty statement inserted) and every empty statement removed
+    {
+        let items = progs::typed_family(Tier::Quick);
+        let mut v = vec![];
+        let idents = ["i", "j", "a", "m", "x", "q", "A", "int", "k9"];
+        let lits = ["0", "7", "0x1F", "'c'"];
+        let ops: [&[&str]; 3] = [&["+", "-"], &["*", "/"], &["<", "<=", "=", "#", ">", ">="]];
+        for (pi, it) in items.iter().enumerate() {
+            if pi % tier.pick(9, 2) != 0 && it.family != "scenario-permutations" {
+                continue;
+            }
+            let pr = print_program(&it.program);
+            let r = render_plain(&pr.toks, Layout::Spaces);
+            for (k, t) in pr.toks.iter().enumerate() {
+                let (s, e) = r.tok_ranges[k];
+                let mut repls: Vec<String> = vec![];
+                match &t.class {
+                    crate::gen::ast::TokClass::Ident(_) => repls.extend(idents.iter().filter(|x| **x != t.text).take(tier.pick(3, 9)).map(|x| x.to_string())),
+                    crate::gen::ast::TokClass::Number => repls.extend(lits.iter().filter(|x| **x != t.text).take(tier.pick(2, 4)).map(|x| x.to_string())),
+                    crate::gen::ast::TokClass::Symbol => {
+                        for g in ops {
+                            if g.contains(&t.text.as_str()) {
+                                repls.extend(g.iter().filter(|x| **x != t.text).map(|x| x.to_string()));
+                            }
+                        }
+                        if t.text == ";" {
+                            repls.push("; ;".into());
+                        }
+                    }
+                    _ => {}
+                }
+                for rp in repls {
+                    v.push(Case { family: "F5-valid-to-valid-token-edits", text: r.text.clone(), batches: vec![vec![(s, e, rp)]] });
+                }
+            }
+        }
+        fams.push(("F5-valid-to-valid-token-edits", v));
+    }
     // batches: ordered pairs of edits delivered in one update, on small token soups
     {
         let seqs = Strings::new(SIGMA_TOK, tier.pick(1, 2));
@@ -455,6 +495,14 @@ pub fn sweep(tier: Tier) -> SweepResult {
             states.insert(h.finish());
         }
         nontrivial += cases.len() as u64;
+        if std::env::var("C01_DUMP").ok().as_deref() == Some(*name) {
+            for (c, (_, r)) in cases.iter().zip(&res) {
+                if r.is_some() {
+                    let (s, e, rp) = &c.batches[0][0];
+                    println!("DUMP {:?} -> {:?} @{} ctx={:?}", &c.text[*s..*e], rp, s, &c.text[s.saturating_sub(25)..(*e + 25).min(c.text.len())]);
+                }
+            }
+        }
         stats.push(json!({"family": name, "cases": cases.len(), "pre_states": distinct_texts.len(), "diverging": fam_fail, "diverging_known": fam_known, "diverging_by_component": by_comp}));
     }
     // the same property observed at the protocol level: diagnostics published after didChange
